@@ -286,6 +286,7 @@ def run_tv(pid, tier, seed, out):
                  'expected': {k.split('.')[0]: r['pred'].get(k.split('.')[0]) for k in fields},
                  'observed': {k.split('.')[0]: obs.get(k.split('.')[0]) for k in fields},
                  'dev': r.get('dev') or [], 'dev_before': r.get('devb') or [], 'scenario': 'trace ' + t['id'],
+                 'pre_z': prev_z(t, r['at']), 'obs_z': st['p'].get('z'), 'obs_r': st['p'].get('r'),
                  'meta': t['meta'], 'steps': None, 'pend_types': pend_types, 'chunked': t.get('chunk_seed') is not None,
                  'tv_trace': {'id': t['id'], 'meta': t['meta'], 'steps': [strip_obs(x) for x in t['steps'][:r['at']]]}}
             divs.append(d)
@@ -368,6 +369,7 @@ def run_corpus(pid, tier, seed, out):
                          'expected': {k.split('.')[0]: r['pred'].get(k.split('.')[0]) for k in fields},
                          'observed': {k.split('.')[0]: st['p'].get(k.split('.')[0]) for k in fields},
                          'dev': r.get('dev') or [], 'dev_before': r.get('devb') or [], 'scenario': 'repository test ' + t['id'],
+                         'pre_z': prev_z(t, r['at']), 'obs_z': st['p'].get('z'), 'obs_r': st['p'].get('r'),
                          'meta': t['meta'], 'steps': None,
                          'what': 'what the repository test %s does to a connection is not a behaviour of the specification from step %d on'
                                  % (t['id'], r['at']),
@@ -426,6 +428,15 @@ ALIVE = set()
 def driver_mask(text):
     from harness import driver
     return driver.mask_addresses(text)
+
+
+def prev_z(t, at):
+    """The state projection the recorded execution observed for the endpoint of step `at` after that endpoint's previous step."""
+    x = t['steps'][at - 1].get('x')
+    for q in reversed(t['steps'][:at - 1]):
+        if q.get('x') == x and 'p' in q:
+            return q['p'].get('z')
+    return None
 
 
 def add_cases(out, where, cases):
